@@ -10,11 +10,68 @@ TEST_KEY = (0x0706050403020100, 0x0F0E0D0C0B0A0908, 0x1716151413121110, 0x1F1E1D
 FIXED_KEYS = [(0, 0, 0, 0), (2**64 - 1,) * 4, (1, 2, 3, 4), TEST_KEY]
 
 
+INIT0 = (0xdbe6d5d5fe4cce2f, 0xa4093822299f31d0, 0x13198a2e03707344, 0x243f6a8885a308d3)
+INIT1 = (0x3bd39e10cb0ef593, 0xc0acf169b5f18a8c, 0xbe5466cf34e90c6c, 0x452821e638d01377)
+M64 = (1 << 64) - 1
+
+
+def edge64(r):
+    """lane values at carry / sign / width boundaries: the arithmetic of `update`, the length
+    injection and the 32-bit rotations are value dependent only through carries and truncations"""
+    m = r.randrange(10)
+    small = r.randrange(0, 40)
+    if m == 0:
+        return r.choice((0, M64, 0xFFFFFFFF, 0xFFFFFFFF00000000, 0x8000000000000000, 0x80000000, 0x7FFFFFFF, 0x7FFFFFFFFFFFFFFF, 1))
+    if m == 1:
+        return (r.getrandbits(32) << 32) | ((1 << 32) - 1 - small)          # low half about to carry
+    if m == 2:
+        return (((1 << 32) - 1 - small) << 32) | r.getrandbits(32)          # high half about to carry
+    if m == 3:
+        return (M64 - small)                                                # whole lane about to wrap
+    if m == 4:
+        return (((1 << 32) - 1 - small) << 32) | ((1 << 32) - 1 - r.randrange(0, 40))
+    if m == 5:
+        return (r.getrandbits(32) << 32)                                    # low half zero
+    if m == 6:
+        return r.getrandbits(32)                                            # high half zero
+    if m == 7:
+        return (0x80000000 | r.getrandbits(31)) << 32 | (0x80000000 | r.getrandbits(31))   # both sign bits
+    if m == 8:
+        return (0xC000000000000000 | r.getrandbits(62))                     # top two bits (modular reduction)
+    return r.getrandbits(64)
+
+
+def rot32(x):
+    return ((x << 32) | (x >> 32)) & M64
+
+
+def edge_key(r):
+    """a key that puts boundary values into the initial v0 (= init0 ^ key) or v1 (= init1 ^ rot32(key)) lanes"""
+    k = []
+    for i in range(4):
+        m = r.randrange(3)
+        e = edge64(r)
+        if m == 0:
+            k.append(INIT0[i] ^ e)
+        elif m == 1:
+            k.append(rot32(INIT1[i] ^ e))
+        else:
+            k.append(e)
+    return tuple(k)
+
+
 def rkey(r):
     c = r.random()
-    if c < 0.4:
+    if c < 0.3:
         return r.choice(FIXED_KEYS)
+    if c < 0.6:
+        return edge_key(r)
     return tuple(r.getrandbits(64) for _ in range(4))
+
+
+def edge_lanes(r):
+    """16 state lanes for a synthetic checkpoint: a mixture of boundary values and random ones"""
+    return b"".join((edge64(r) if r.random() < 0.6 else r.getrandbits(64)).to_bytes(8, "little") for _ in range(16))
 
 
 def kstr(k):
@@ -226,7 +283,8 @@ def malformed(r, sels, count=None, force=False):
     """restore from an arbitrary 164-byte array on every back end, then a follow-up history; all back
     ends must agree; an empty append changes nothing; streaming invariance and own-checkpoint
     transparency hold for the restored hasher"""
-    lanes = bytes(r.getrandbits(8) for _ in range(128)) if r.random() < 0.8 else bytes(128)
+    c0 = r.random()
+    lanes = bytes(r.getrandbits(8) for _ in range(128)) if c0 < 0.4 else (edge_lanes(r) if c0 < 0.9 else bytes(128))
     bufb = rbytes(r, 32)
     if count is None:
         count = r.choice(COUNTS) if r.random() < 0.8 else r.getrandbits(32)
